@@ -1,5 +1,5 @@
 """Per-property checks (see DESIGN.md section 5)."""
-import json, os, random, subprocess, time
+import json, os, random, re, subprocess, time
 from yvlib import *
 from families import *
 
@@ -102,10 +102,58 @@ def check_C01(res, scratch, tier, seed):
 
 
 def replay(path):
+    """Re-execute the cases of a replay file against the library built from the working tree: harness blocks are run again,
+    recorded trace lines are validated again by TLC.  Exit status 1 if a case still fails."""
     print("replay file:", path)
     d = json.load(open(path))
-    print(json.dumps(d, indent=1)[:4000])
-    return 0
+    print("property %s  key %s  count %s" % (d.get("property"), d.get("key"), d.get("count")))
+    scratch = Scratch("replay")
+    bad = 0
+    try:
+        b = build(scratch, "plain", ("yv_replay", "yv_api", "yv_cont"))
+        for i, c in enumerate(d.get("cases", [])):
+            if "line" in c and isinstance(c["line"], dict):
+                ln = c["line"]
+                module = "RecTrace" if "kind" in ln else "EarleyTrace" if "ev" in ln else "LookTrace" if "sets" in ln else "ParseTrace"
+                extra = ("CONSTANTS\n  GrammarsR <- DummyG\n  InputsR <- DummyI\n  MatchVals = {1}\n" if module == "RecTrace"
+                         else "CONSTANTS\n  GrammarsC <- DummyGL\n  TermsC = {1}\n  MaxPl = 1\n" if module == "LookTrace" else "")
+                print("case %d: recorded trace line; TLC (%s) on the RECORDED observation says:" % (i, module))
+                ok, rej, t = validate_trace(scratch, module, [ln], "replay%d" % i, cfg_extra=extra)
+                print("   ", "rejected: %s" % rej[0][2] if rej else "accepted" if ok else "TLC did not finish")
+                bad += 1 if rej else 0
+                print("    (re-record it with the check to see whether the library still produces this observation)")
+                continue
+            blk = c.get("block") or c.get("behaviour")
+            if not blk and c.get("vector"):
+                vec = dict(c["vector"])
+                # the record keeps the grammar; the expectation of a definition mismatch is in the record itself
+                expd = [int(x) for x in re.findall(r"\d+", str(c.get("exp", "")))] if str(c.get("cfg", "")).startswith("def") else []
+                expd = [x for x in expd if x != 0]
+                vec.setdefault("dn", expd if "strict=0" in str(c.get("cfg", "")) else [])
+                vec.setdefault("ds", expd if "strict=1" in str(c.get("cfg", "")) else vec["dn"])
+                vec.setdefault("cases", [])
+                cfgs = []
+                if c.get("cfg", "")[:1].isdigit() or c.get("cfg", "").startswith("-"):
+                    parts = [int(x) for x in c["cfg"].split(",")]
+                    cfgs = [tuple(parts[:6])]
+                blk = blocks_from_vector(vec, cfgs or [(0, 1, 0, 1, 3, 0), (1, 0, 0, 0, 3, 0), (2, 0, 1, 1, 3, 0)], mems=(0, 1),
+                                         define_only=not vec.get("cases"), want_trees=bool(vec.get("trees_emitted")))
+            if not blk:
+                print("case %d: nothing executable recorded:\n%s" % (i, json.dumps(c, default=str)[:1500]))
+                continue
+            if str(c.get("cfg", "")).startswith("def"):
+                print("    (definition case: both strictness levels are defined again; the recorded one was `%s', expected %s, got %s)" % (c.get("cfg"), c.get("exp"), c.get("got")))
+            binary = "yv_api" if any(l.startswith(("DEF ", "B ")) and not l.startswith("B hash") for l in blk) and any(l.startswith("DEF ") for l in blk) \
+                else "yv_cont" if any(l.split(" ")[0] in ("hcreate", "ocreate", "vcreate") for l in blk) else "yv_replay"
+            recs, st = run_harness(os.path.join(b, binary), [blk], jobs=1)
+            fails = [r for r in recs if r.get("k") == "mismatch" or r.get("e") == "Abort"]
+            print("case %d: %s, %d lines: %s" % (i, binary, len(blk), "STILL FAILS" if fails else "passes now"))
+            for r in fails[:3]:
+                print("    ", json.dumps(r, default=str)[:400])
+            bad += 1 if fails else 0
+    finally:
+        scratch.cleanup()
+    return 1 if bad else 0
 
 
 # ------------------------------------------------------------------ translation families (C02-C05)
